@@ -61,6 +61,11 @@ impl<R: Read + Seek> ReadBox<&mut R> for UdtaBox {
                 ));
             }
 
+            // Break if size zero BoxHeader, which can result in dead-loop.
+            if s == 0 {
+                break;
+            }
+
             match name {
                 BoxType::MetaBox => {
                     meta = Some(MetaBox::read_box(reader, s)?);
